@@ -176,7 +176,7 @@ def step (_ : Unit) (pre post : List String) : Unit × Verdict :=
       match n.toNat?, (order.splitOn ",").mapM String.toNat? with
       | some nk, some ord =>
         let sigOf (j : Nat) : Bytes := [UInt8.ofNat (j + 1)]
-        let final := ord.foldl (fun acc o => addSignatureByIndex acc (sigOf o) o) []
+        let final := assemble sigOf ord
         let pos := ",".intercalate (final.map fun s => match (List.range nk).find? (fun j => sigOf j = s) with | some j => toString j | none => "x")
         let ok := multisigVerify (fun (j : Nat) _ s => s == sigOf j) (List.range nk) [] final
         let isPerm := ord.length = nk ∧ (List.range nk).all fun j => ord.contains j
